@@ -55,7 +55,12 @@ def main():
             for c in checks:
                 env = dict(os.environ, VERIF_REPO=d, VERIF_EVIDENCE_DIR=evdir, VERIF_SEED=os.environ.get("VERIF_SEED", "1"))
                 t0 = time.time()
-                r = sh([os.path.join(HERE, "run_check.py"), c, "quick"], env=env, cwd=HERE)
+                try:
+                    r = sh([os.path.join(HERE, "run_check.py"), c, "quick"], env=env, cwd=HERE, timeout=1200)
+                except subprocess.TimeoutExpired:
+                    rec["checks"][c] = {"exit": "timeout", "signatures": [], "secs": 1200}
+                    sh("pkill -f 'run_check.py %s'" % c)
+                    continue
                 sigs = [l.split("signature=")[1].strip() for l in r.stdout.splitlines() if l.strip().startswith("signature=")]
                 rec["checks"][c] = {"exit": r.returncode, "signatures": sigs[:3], "secs": round(time.time() - t0, 1)}
                 if r.returncode == 2:
